@@ -22,6 +22,12 @@ check("C01", "exploration",
   "Small scope: 25 hand-listed struct shapes two levels deep, one-factor-at-a-time row alphabets, option combinations beyond the deviation bound are not covered; -0.0 in an optional non-pointer float may come back as +0.0 (two-valued mapping).",
   "DESIGN.md §2 C01")
 
+check("C03", "exploration",
+  "bounded exhaustive enumeration of row type x row sequence x batch split through seven real ingestion paths; differential oracle on the stored (column, value bytes, repetition, definition) streams plus Reconstruct(Deconstruct(v))",
+  "For every enumerated value (25 struct shapes, boundary-value alphabets, null/non-null run patterns crossing the 8/64/128-row kernels' boundaries, batch splits) the streams stored by GenericWriter, GenericBuffer, Buffer.Write, RowBuffer, WriteRows(Deconstruct) and per-column ColumnWriters must equal, value by value and level by level, the streams stored by Writer.Write(any), and re-assembly must return the value. The space is finite and fully enumerated; the typed and reflection implementations check each other on every point of it.",
+  "Differential: a defect common to all seven paths is not visible here (C01/C02 look at that); map-typed rows compare counts and re-assembly only; small scope as C01.",
+  "DESIGN.md §2 C03")
+
 NOT_YET = "check not built yet in this round (design in DESIGN.md §2); not claimed until its check exists"
 
 m = {
